@@ -5,16 +5,44 @@ PROP = dict(
         ns='IcyVerif.C19',
         theorems=['crc16_table_entries', 'crc32_table_entries', 'update_crc16_is_bitwise',
                   'update_crc32_is_bitwise', 'get_crc16_eq', 'incremental_crc16', 'get_crc32_eq',
-                  'incremental_crc32', 'source_skeleton_unchanged'],
+                  'incremental_crc32', 'source_skeleton_unchanged',
+                  # the call sites (the engine's own incremental use of the update functions)
+                  'rect_cell_serial', 'rect_cells_spec', 'rect_checksum_eq', 'decrqcra_reply',
+                  'font_checksum_eq', 'font_loop_spec', 'font_checksum_covers',
+                  'palette_checksum_any_history', 'palette_color_serial', 'palette_checksum_idempotent',
+                  'call_sites_skeleton_unchanged'],
         harness='c19',
         design='DESIGN.md §4 C19',
         technique='Lean 4 proof (induction over byte strings + XOR-linearity of the shift register; '
                   'tables checked entry-by-entry with decide +kernel) over a model whose tables and XOR-chain '
-                  'shape are regenerated from src/crc.rs; differential correspondence for the hand-written skeleton',
+                  'shape are regenerated from src/crc.rs; the three call sites (DECRQCRA, font checksum, palette checksum) are '
+                  'modelled as the nested feeding loops that exist and proved equal to one fold over the serialised bytes = '
+                  'one-shot CRC = bitwise definition (palette: cache invariant "register = fold over colors[..old_checksum]" '
+                  'preserved by every operation, so every get_checksum in every history returns the fold over all colours '
+                  'present); per-cell / per-colour byte order, loop bounds and initial values regenerated from the call-site '
+                  'sources; differential correspondence for the hand-written skeletons through the real parser / loaders',
         rule='cases: seeded byte strings of every length 0..=48, one-hot strings routing a byte through each sliced-table '
              'row, longer strings, two-byte strings, update_crc16 rows (state x all 256 bytes hashed), update_crc32 '
-             'samples; distinct_nontrivial = distinct byte strings fed to the one-shot + incremental APIs',
+             'samples; call sites: DECRQCRA requests through the real ANSI parser on buffers whose cells come from SGR '
+             'sequences and from direct writes (attribute words of every shape incl. invisible, colours 0..15 / 16..255 / '
+             '256..300 / RGB-flagged / arbitrary u32, characters above 0xFF; areas full-screen, at and one past the edge, '
+             'empty, single cell, wrong parameter counts), fonts built by the real loaders (PSF1 256/512, PSF2 with 0..700 '
+             'glyphs and 16-pixel rows, raw, create_8, from_basic; length field above/below the glyph count, glyphs removed, '
+             'pairs differing in one byte of one glyph below/above 256), palette histories (every cut of 6 pushes into '
+             'get_checksum calls, every history of push/get_checksum up to length 6 from three constructors, every history '
+             'up to length 2-3 over 11 operations, seeded histories on 1..300 colours); '
+             'distinct_nontrivial = distinct byte strings fed to the one-shot + incremental APIs plus distinct call-site scenarios',
         modelled='get_crc16, update_crc16, get_crc32 (loop skeleton hand-modelled; tables, init value, block size, '
-                 'XOR-chain (row, index, shift) triples regenerated), update_slow, update_crc32',
-        not_modelled='get_crc16_buggy*, Rust slice bounds (buf[0xf] is in range because len>=16)',
+                 'XOR-chain (row, index, shift) triples regenerated), update_slow, update_crc32; '
+                 'call sites: Parser::request_checksum_of_rectangular_area (parameter count, area test, row/column loops, '
+                 'visibility test, per-cell feeding, reply string) as a function of the cell grid that Buffer::get_char shows; '
+                 'BitFont::calculate_checksum (loop 0..length over char::from_u32 + glyph lookup, register from 0) as a function '
+                 'of length and the glyph table; Palette::get_checksum with its cache (old_checksum, checksum) and every Palette '
+                 'method that writes the colour vector: push, set_color, set_color_rgb, set_color_hsl (as set_color with the '
+                 'colour that came out), clear, resize, fill_to_16, insert_color, clone',
+        not_modelled='get_crc16_buggy*, Rust slice bounds (buf[0xf] is in range because len>=16); call sites: the CSI '
+                     'parameter parser that fills parsed_numbers and the layer compositing inside Buffer::get_char (C13) — the '
+                     'model starts from the numbers and the observed grid; the float arithmetic of set_color_hsl; font loaders '
+                     '(C17) — the model starts from length and glyph table; BitFont.glyphs / length are public fields, edits '
+                     'after construction need an explicit calculate_checksum() by design',
     )
